@@ -119,6 +119,17 @@ def step (d : PD) (line : String) : PD × String :=
           | .extend l0 by_ =>
             let l := trimWS l0
             if status == 204 && by_ > 0 && !heldLive before now l then some s!"C04 extend-succeeded-on-a-lease-that-is-not-current lease={l.quote}"
+            else if status == 204 && by_ > 0 then
+              -- C03: an accepted extend moves the end of the lease by exactly what was accepted (the lease then "ends by
+              -- expiry" at that instant, not earlier)
+              match before.find? (fun m => m.st == .leased && m.lease == l) with
+              | some b =>
+                match after.find? (fun m => m.id == b.id) with
+                | some m => if m.st == .leased && m.lease == l && m.luntil < b.luntil + by_ then
+                    some s!"C03,C05 extended-lease-ends-earlier-than-accepted id={m.id} extend-by={by_} moved-by={m.luntil - b.luntil}"
+                  else none
+                | none => none
+              | none => none
             else none
           | .ackBatch ls | .nackBatch ls _ _ _ =>
             let key := match op with | .ackBatch _ => "ack" | _ => "nack"
@@ -132,7 +143,17 @@ def step (d : PD) (line : String) : PD × String :=
             let b : Int := if batch ≤ 0 then 1 else batch
             let cap : Int := if d.pc.maxBatch > 0 && b > d.pc.maxBatch then d.pc.maxBatch else b
             if (picks.length : Int) > cap then some s!"C05 dequeue-returned-more-than-the-capped-batch got={picks.length} cap={cap}"
-            else none
+            else
+              -- C03: every lease handed out runs for the TTL the API accepted — what the caller asked for, capped at the
+              -- configured maximum, or the configured default — so that nobody else is offered the message before
+              -- (a requested TTL that is not positive is left to the correspondence: the property says nothing about it)
+              let asked : Int := match op with | .dequeue _ _ (some t) => t | _ => d.pc.defaultTTL
+              let eff : Int := if d.pc.maxTTL > 0 && asked > d.pc.maxTTL then d.pc.maxTTL else asked
+              if asked ≤ 0 then none else
+              match picks.find? (fun p => match after.find? (fun m => m.id == p.1) with
+                                         | some m => m.luntil != now + eff | none => false) with
+              | some p => some s!"C03,C05 lease-does-not-run-for-the-accepted-ttl id={p.1} accepted={eff} runs={((after.find? (fun m => m.id == p.1)).map (·.luntil)).getD 0 - now}"
+              | none => none
         -- genuine successes of this step (the store accepted them)
         let wins' :=
           match op with
